@@ -37,6 +37,7 @@ func checkC20(p *core.Program, r *core.Report) {
 		"(O20.4) the handler writes one status per request (C09 O9.1). Not decided: counting inside promhttp, gauge decrement on panics, scrape availability under load."
 	r.Rule("O20.1", "prover server serves the instrumented mux; metrics server serves HandlerFor(same registry) at /metrics; two distinct servers, both started")
 	r.Rule("O20.2", "the /prove handler is registered only through the instrumented mux; nothing on the default mux")
+	r.Rule("O20.7", "the /metrics handler is not throttled (no MaxRequestsInFlight, no Timeout): it stays available to concurrent and slow scrapes while proofs are generated")
 	r.Rule("O20.6", "no lock taken by a registered metrics collector callback is held by the request path across the proving step")
 	r.Rule("O20.5", "the prover server sets no write deadline (WriteTimeout): a counted response must still be sendable however long the proof takes")
 	r.Rule("O20.4", "the handler sets exactly one status per request on every path (the counter records the last WriteHeader)")
@@ -379,6 +380,24 @@ func checkC20(p *core.Program, r *core.Report) {
 				h := e.Term.Args[2]
 				if callNameHasSuffix(h, "promhttp.HandlerFor") && len(h.Args) >= 1 {
 					servedRegistry = h.Args[0]
+					// O20.7: the scrape handler is not throttled — MaxRequestsInFlight answers overlapping scrapes 503, a
+					// Timeout answers slow ones (under proving load) 503
+					if len(h.Args) >= 2 {
+						opts := ev.Resolve(h.Args[1])
+						var lim []string
+						for _, f := range []string{"MaxRequestsInFlight", "Timeout"} {
+							if v := opts.FieldOf(f); v != nil && v.K != tf.KZero && !isConstInt(v, 0) {
+								lim = append(lim, f+" = "+describe(v))
+							}
+						}
+						if opts.K != tf.KRecord && opts.K != tf.KZero {
+							r.Undecided("O20.7", "server.Run: /metrics handler options", p.Pos(run.Pos()), "cannot read the HandlerOpts value %s", describe(opts))
+						} else if len(lim) > 0 {
+							r.Violation("O20.7", "server.Run: /metrics handler options", p.Pos(run.Pos()), "the metrics handler is limited (%s): a scrape that overlaps another one, or that is slow while proofs are generated, is answered 503 instead of the totals", strings.Join(lim, ", "))
+						} else {
+							r.OK("O20.7", "server.Run: /metrics handler options", p.Pos(run.Pos()), "no MaxRequestsInFlight / Timeout on the scrape handler")
+						}
+					}
 				}
 			}
 		}
